@@ -486,6 +486,8 @@ pub fn drive<P: Prop>(prop: &P, opts: &Options) -> i32 {
                     let first_sig: std::cell::RefCell<Option<String>> = std::cell::RefCell::new(None);
                     let last_failure: std::cell::RefCell<Option<Failure>> = std::cell::RefCell::new(None);
                     let frozen: std::cell::RefCell<Option<(Value, Failure)>> = std::cell::RefCell::new(None);
+                    let shrink_started: std::cell::Cell<Option<std::time::Instant>> = std::cell::Cell::new(None);
+                    let shrink_budget: u64 = std::env::var("VERIF_SHRINK_S").ok().and_then(|s| s.parse().ok()).unwrap_or(120);
                     let result = runner.run(&strategy, |case| {
                         if frozen.borrow().is_some() {
                             // an unshrinkable failure was found: let the shrinker run dry
@@ -493,6 +495,11 @@ pub fn drive<P: Prop>(prop: &P, opts: &Options) -> i32 {
                         }
                         let shrinking = first_sig.borrow().is_some();
                         if !shrinking && stop.load(Ordering::Relaxed) {
+                            return Ok(());
+                        }
+                        // shrinking gets a wall-clock budget: after it every further candidate "passes", so the
+                        // shrinker runs dry and the smallest failing case found so far is reported
+                        if shrinking && shrink_started.get().map_or(false, |t: std::time::Instant| t.elapsed().as_secs() > shrink_budget) {
                             return Ok(());
                         }
                         let mut rec = rec.borrow_mut();
@@ -506,6 +513,7 @@ pub fn drive<P: Prop>(prop: &P, opts: &Options) -> i32 {
                                 match &*fs {
                                     None => {
                                         *fs = Some(f.signature.clone());
+                                        shrink_started.set(Some(std::time::Instant::now()));
                                         rec.counting = false;
                                         stop.store(true, Ordering::Relaxed);
                                     }
